@@ -31,11 +31,21 @@ def plan(tier, seed):
   return [{"n": N[tier], "shard": i} for i in range(16)]
 
 
+def _round(v):
+  """Floats compared to 10 significant digits: two snapshots of one document may resolve the same relative length along
+  different but equivalent arithmetic paths (6.666666666666667 vs 6.666666666666668 rh) - not a change of the presentation."""
+  if isinstance(v, float):
+    return float("%.10g" % v)
+  if isinstance(v, tuple):
+    return tuple(_round(x) for x in v)
+  return v
+
+
 def _norm_style(k, v):
   # unspecified text-decoration components left at the root of inheritance mean "not decorated" (abstention of the reference)
   if k == "TextDecoration" and isinstance(v, tuple) and v and v[0] == "D":
     return ("D", v[1], tuple((f, False if x is None else x) for f, x in v[2]))
-  return v
+  return _round(v)
 
 
 def canon_el(e: absdoc.AbsEl):
